@@ -8,6 +8,8 @@ import (
 	"context"
 	"fmt"
 	"hash/fnv"
+	"runtime"
+	"strconv"
 	"strings"
 	"sync"
 	"time"
@@ -42,6 +44,23 @@ type poolTracker struct {
 	badCtx   context.Context
 	badAbort context.CancelFunc
 	panics   []string
+	// tagG: record, for every event, the goroutine it was reported from (gids is parallel to log); used by the
+	// scenarios that cut the trace into the windows of one goroutine (family E)
+	tagG bool
+	gids []int64
+}
+
+// curGID returns the id of the calling goroutine (from the header line of its stack trace).
+func curGID() int64 {
+	var buf [64]byte
+	n := runtime.Stack(buf[:], false)
+	f := strings.Fields(string(buf[:n]))
+	if len(f) >= 2 {
+		if v, err := strconv.ParseInt(f[1], 10, 64); err == nil {
+			return v
+		}
+	}
+	return -1
 }
 
 // note feeds one event to the online automaton (caller holds t.mu).
@@ -119,6 +138,9 @@ func (t *poolTracker) ctx() context.Context {
 }
 
 func (t *poolTracker) add(e lcEvent) {
+	if t.tagG {
+		t.gids = append(t.gids, curGID())
+	}
 	t.log = append(t.log, e)
 	t.note(e)
 }
@@ -128,6 +150,8 @@ func (t *poolTracker) add(e lcEvent) {
 func (t *poolTracker) scenario(pools ...*pool.Pool) {
 	t.mu.Lock()
 	t.log = nil
+	t.gids = nil
+	t.tagG = false
 	t.ids = map[*pool.Message]int{}
 	t.holds = map[*pool.Message]uint64{}
 	t.state = map[int]byte{}
@@ -272,7 +296,15 @@ func (t *poolTracker) Hold(m *pool.Message) {
 func (t *poolTracker) Unhold(m *pool.Message) {
 	d := msgDigest(m)
 	t.mu.Lock()
-	same := t.holds[m] == d
+	h, held := t.holds[m]
+	if !held {
+		// no Hold in THIS scenario: the end of a hold that began in an earlier scenario (a handler goroutine
+		// that scenario left behind, e.g. one parked by a `hang` operation until its connection went away).
+		// It is not part of this trace.
+		t.mu.Unlock()
+		return
+	}
+	same := h == d
 	delete(t.holds, m)
 	t.add(lcEvent{"Unhold", t.id(m), same})
 	t.mu.Unlock()
@@ -297,7 +329,29 @@ func (t *poolTracker) take() []lcEvent {
 	defer t.mu.Unlock()
 	l := t.log
 	t.log = nil
+	t.gids = nil
 	return l
+}
+
+// tagGoroutines switches the per-event goroutine tags on (until the next scenario starts).
+func (t *poolTracker) tagGoroutines() {
+	t.mu.Lock()
+	t.tagG = true
+	t.gids = make([]int64, len(t.log))
+	t.mu.Unlock()
+}
+
+// eventsOf returns the events log[from:to) that were reported from goroutine gid.
+func (t *poolTracker) eventsOf(gid int64, from, to int) []lcEvent {
+	t.mu.Lock()
+	defer t.mu.Unlock()
+	var r []lcEvent
+	for i := from; i < to && i < len(t.log) && i < len(t.gids); i++ {
+		if t.gids[i] == gid {
+			r = append(r, t.log[i])
+		}
+	}
+	return r
 }
 
 func coqLc(evs []lcEvent) string {
